@@ -115,6 +115,25 @@ func (r *rtRecorder) add(via string, ev *types.Event) {
 	r.mu.Unlock()
 }
 
+// reread snapshots every recorded event again through the pointer the sink was
+// given: what a transmission that reads its events at send time would see now.
+func (r *rtRecorder) reread() []rtSnap {
+	r.mu.Lock()
+	defer r.mu.Unlock()
+	out := make([]rtSnap, len(r.snaps))
+	for i, s := range r.snaps {
+		ev := s.ev
+		fields := map[string]any{}
+		for k, v := range ev.Data.All() {
+			fields[k] = v
+		}
+		out[i] = rtSnap{Seq: s.Seq, Via: s.Via, APIHost: ev.APIHost, APIKey: ev.APIKey, Dataset: ev.Dataset, Environment: ev.Environment,
+			SampleRate: ev.SampleRate, Timestamp: ev.Timestamp, TraceID: ev.Data.MetaTraceID,
+			Probe: ev.Data.MetaRefineryProbe.HasValue && ev.Data.MetaRefineryProbe.Value, Fields: fields, ev: ev}
+	}
+	return out
+}
+
 func (r *rtRecorder) all() []rtSnap {
 	r.mu.Lock()
 	defer r.mu.Unlock()
